@@ -16,9 +16,18 @@ import StorageModel.Generated.Grammar
        Model: lexer model + whitespace discipline + parser model on the spelled text.
        Spec: intended reading of the *base* skeleton.  Output `ok - <bits over the rows>` | …
    x <hex of a damaged spelling> <truth vectors>
-       model as for `r`; the spec has no opinion (`any`). -/
+       model as for `r`; the spec has no opinion (`any`).
+   D <case>
+       the case `<case>` under the process-wide switch `ast.EnableQueryDebug = true`: same answers. -/
 namespace StorageModel.Driver.C12
 open StorageModel.Driver StorageModel.C12
+
+/-- atom letters of the compact skeletons: `a`..`z` ↦ 0..25 (25 = `z`, the string-typed symbol),
+    `A`..`Z` except the BOOL constants `T` `F` ↦ 26.. (further operation atoms of the r-cases) -/
+def atomIndex (ch : Char) : Option Nat :=
+  if 'a' ≤ ch ∧ ch ≤ 'z' then some (ch.toNat - 'a'.toNat)
+  else if 'A' ≤ ch ∧ ch ≤ 'Z' ∧ ch ≠ 'T' ∧ ch ≠ 'F' then some (26 + (ch.toNat - 'A'.toNat))
+  else none
 
 def tokOfChar (ch : Char) : Option (Tok Nat) :=
   if ch = '&' then some (.op .and)
@@ -28,8 +37,7 @@ def tokOfChar (ch : Char) : Option (Tok Nat) :=
   else if ch = ')' then some .rp
   else if ch = 'T' then some (.atom (.const true))
   else if ch = 'F' then some (.atom (.const false))
-  else if 'a' ≤ ch ∧ ch ≤ 'z' then some (.atom (.sym (ch.toNat - 'a'.toNat)))
-  else none
+  else (atomIndex ch).map fun i => .atom (.sym i)
 
 def toksOfString (s : String) : Option (List (Tok Nat)) :=
   s.toList.mapM tokOfChar
@@ -61,7 +69,7 @@ def showRes (n : Nat) : Res Nat → String
 def parseVecs (s : String) : List (Nat × List Bool) :=
   (s.splitOn ",").filterMap fun item =>
     match item.toList with
-    | ch :: '=' :: bs => some (ch.toNat - 'a'.toNat, bs.map (· == '1'))
+    | ch :: '=' :: bs => some ((atomIndex ch).getD 0, bs.map (· == '1'))
     | _ => none
 
 def rowEnv (vecs : List (Nat × List Bool)) (row : Nat) (i : Nat) : Bool :=
@@ -83,7 +91,7 @@ def showRows (vecs : List (Nat × List Bool)) : Res Nat → String
     harness's extra symbols (boolean, false in every row): index 99 -/
 def placeholder (w : List Char) : Option Nat :=
   match w with
-  | ['x', ch, '_', _] => if 'a' ≤ ch ∧ ch ≤ 'z' then some (ch.toNat - 'a'.toNat) else some 99
+  | ['x', ch, '_', _] => some ((atomIndex ch).getD 99)
   | _ => some 99
 
 def mapAtoms (ts : List (Tok (List Char))) : Option (List (Tok Nat)) :=
@@ -142,6 +150,11 @@ def specStep (line : String) : String :=
     | none => "bad-case"
   | _ => "bad-case"
 
-def run (spec : Bool) : IO Unit := forEachLine (if spec then specStep else step)
+/-- `D <case>`: the same case, executed by the harness with `ast.EnableQueryDebug` switched on.
+    The model of `ast.Parse` has no configuration parameter: model and spec answer as for `<case>`. -/
+def stripD (line : String) : String :=
+  if line.startsWith "D " then (line.drop 2).toString else line
+
+def run (spec : Bool) : IO Unit := forEachLine (fun l => (if spec then specStep else step) (stripD l))
 
 end StorageModel.Driver.C12
